@@ -318,8 +318,8 @@ pub fn plan(property: &str, quick: bool) -> Plan {
     match property {
         "C02" => {
             let mut parts: Vec<Part> = vec![];
-            parts.push(Part::Bfs(Box::new(c02_scn("c02-contend", false, !quick)), lim(if quick { 6 } else { 7 }, 3_000_000, if quick { 40.0 } else { 900.0 })));
-            parts.push(Part::Bfs(Box::new(WithPrelude { inner: c02_scn("c02-contend-password", true, !quick) }), lim(if quick { 5 } else { 7 }, 3_000_000, if quick { 20.0 } else { 900.0 })));
+            parts.push(Part::Bfs(Box::new(c02_scn("c02-contend", false, !quick)), lim(if quick { 9 } else { 8 }, 3_000_000, if quick { 40.0 } else { 900.0 })));
+            parts.push(Part::Bfs(Box::new(WithPrelude { inner: c02_scn("c02-contend-password", true, !quick) }), lim(if quick { 8 } else { 8 }, 3_000_000, if quick { 20.0 } else { 900.0 })));
             Plan {
                 property: "C02".into(),
                 rule: "E-SEQ BFS: 2 (thorough: 3) contending connections + a registered witness; nick menu {x,y,z}; alphabet NICK/USER/PASS good|bad/CAP/QUIT/EOF for unregistered connections, PRIVMSG/JOIN/NICK/MODE/AWAY/QUIT/EOF for registered ones, and attempts to act by unregistered/refused connections. Oracles: Spec (a refused or incomplete registration changes nothing and delivers nothing), bijection between registered nicknames and owning connections in every state, attribution and reachability of every owner after every step".into(),
@@ -330,7 +330,7 @@ pub fn plan(property: &str, quick: bool) -> Plan {
         "C03" => {
             let mut parts: Vec<Part> = vec![];
             for cfg in c03_configs() {
-                parts.push(Part::Bfs(Box::new(c03_scn(cfg, !quick)), lim(if quick { 5 } else { 7 }, 3_000_000, if quick { 8.0 } else { 600.0 })));
+                parts.push(Part::Bfs(Box::new(c03_scn(cfg, !quick)), lim(if quick { 7 } else { 9 }, 3_000_000, if quick { 8.0 } else { 600.0 })));
             }
             Plan {
                 property: "C03".into(),
